@@ -1,0 +1,195 @@
+//! Verification hooks (cargo feature `verif`).
+//!
+//! A step-driven replica: the real `StateMachine` (restored through the real
+//! `StateMachine::start`) whose handlers are invoked one message at a time by an out-of-tree
+//! harness instead of by the `run()` loop. No logic lives here: every method forwards to the
+//! production handler and reports what it returned.
+#![allow(missing_docs, clippy::missing_docs_in_private_items)]
+use std::sync::Arc;
+
+use zksync_concurrency::{ctx, sync};
+use zksync_consensus_roles::validator::{self, v2};
+
+use crate::{v2_chonky_bft, Config, ToNetworkMessage};
+
+/// Result of offering one message to the replica.
+#[derive(Debug, Clone, PartialEq, Eq)]
+pub enum Outcome {
+    /// The handler returned `Ok`.
+    Accepted,
+    /// The handler rejected the message; the string is the error variant (e.g. "Old", "InvalidLeader").
+    Rejected(String),
+    /// The handler returned an internal error (storage failure / cancellation): the real `run()` loop ends.
+    Internal(String),
+}
+
+/// Read-only view of the replica state.
+#[derive(Debug, Clone, PartialEq)]
+pub struct Snapshot {
+    pub view: validator::ViewNumber,
+    pub phase: v2::Phase,
+    pub high_vote: Option<v2::ReplicaCommit>,
+    pub high_commit_qc: Option<v2::CommitQC>,
+    pub high_timeout_qc: Option<v2::TimeoutQC>,
+    /// Validators with a recorded latest commit / timeout vote.
+    pub commit_views: usize,
+    pub timeout_views: usize,
+    /// Views with a partially collected commit / timeout certificate.
+    pub commit_qc_views: usize,
+    pub timeout_qc_views: usize,
+    /// Total number of (view, vote) commit accumulators and of timeout messages held.
+    pub commit_qcs_total: usize,
+    pub timeout_msgs_total: usize,
+    /// Cached proposal payloads.
+    pub cached_payloads: usize,
+}
+
+pub struct Replica {
+    sm: v2_chonky_bft::StateMachine,
+    cfg: Arc<Config>,
+    outbound: ctx::channel::UnboundedReceiver<ToNetworkMessage>,
+    proposer: sync::watch::Receiver<Option<v2::ProposalJustification>>,
+}
+
+fn variant(dbg: String) -> String {
+    dbg.split(|c: char| !c.is_alphanumeric())
+        .next()
+        .unwrap_or_default()
+        .to_string()
+}
+
+macro_rules! outcome {
+    ($res:expr, $err:path) => {
+        match $res {
+            Ok(()) => Outcome::Accepted,
+            Err(err) => {
+                if let $err(inner) = &err {
+                    Outcome::Internal(format!("{inner:#}"))
+                } else {
+                    Outcome::Rejected(variant(format!("{err:?}")))
+                }
+            }
+        }
+    };
+}
+
+impl Replica {
+    /// Starts a replica exactly like `Config::run` does (state restored from the engine).
+    pub async fn start(ctx: &ctx::Ctx, cfg: Config) -> ctx::Result<Self> {
+        let cfg = Arc::new(cfg);
+        let (out_send, out_recv) = ctx::channel::unbounded();
+        let (_in_send, in_recv) = crate::create_input_channel();
+        let (prop_send, prop_recv) = sync::watch::channel(None);
+        let sm =
+            v2_chonky_bft::StateMachine::start(ctx, cfg.clone(), out_send, in_recv, prop_send)
+                .await?;
+        Ok(Self {
+            sm,
+            cfg,
+            outbound: out_recv,
+            proposer: prop_recv,
+        })
+    }
+
+    /// Dispatches one message to the real handler, like the body of the `run()` loop.
+    pub async fn handle(
+        &mut self,
+        ctx: &ctx::Ctx,
+        msg: validator::Signed<validator::ConsensusMsg>,
+    ) -> Outcome {
+        let validator::ConsensusMsg::V2(inner) = &msg.msg;
+        match inner {
+            v2::ChonkyMsg::LeaderProposal(_) => outcome!(
+                self.sm.on_proposal(ctx, msg.cast().unwrap()).await,
+                v2_chonky_bft::verif_errors::Proposal::Internal
+            ),
+            v2::ChonkyMsg::ReplicaCommit(_) => outcome!(
+                self.sm.on_commit(ctx, msg.cast().unwrap()).await,
+                v2_chonky_bft::verif_errors::Commit::Internal
+            ),
+            v2::ChonkyMsg::ReplicaTimeout(_) => outcome!(
+                self.sm.on_timeout(ctx, msg.cast().unwrap()).await,
+                v2_chonky_bft::verif_errors::Timeout::Internal
+            ),
+            v2::ChonkyMsg::ReplicaNewView(_) => outcome!(
+                self.sm.on_new_view(ctx, msg.cast().unwrap()).await,
+                v2_chonky_bft::verif_errors::NewView::Internal
+            ),
+        }
+    }
+
+    /// The view timer fires (the real `start_timeout`).
+    pub async fn fire_timeout(&mut self, ctx: &ctx::Ctx) -> Result<(), String> {
+        self.sm
+            .start_timeout(ctx)
+            .await
+            .map_err(|e| format!("{e:#}"))
+    }
+
+    /// What the proposer task would do for the justification last published by the replica:
+    /// `None` if there is none or this node does not lead its view.
+    pub async fn propose(
+        &mut self,
+        ctx: &ctx::Ctx,
+    ) -> Result<Option<validator::Signed<validator::ConsensusMsg>>, String> {
+        let Some(justification) = self.proposer.borrow_and_update().clone() else {
+            return Ok(None);
+        };
+        if self.cfg.validators.view_leader(justification.view().number)
+            != self.cfg.secret_key.public()
+        {
+            return Ok(None);
+        }
+        let proposal = v2_chonky_bft::proposer::create_proposal(
+            &ctx.with_timeout(self.cfg.view_timeout),
+            self.cfg.clone(),
+            justification,
+        )
+        .await
+        .map_err(|e| format!("{e:#}"))?;
+        Ok(Some(self.cfg.secret_key.sign_msg(
+            validator::ConsensusMsg::V2(v2::ChonkyMsg::LeaderProposal(proposal)),
+        )))
+    }
+
+    /// Messages the replica has broadcast since the last call.
+    pub fn drain_outbound(&mut self) -> Vec<validator::Signed<validator::ConsensusMsg>> {
+        let mut out = vec![];
+        while let Some(m) = self.outbound.try_recv() {
+            out.push(m.message);
+        }
+        out
+    }
+
+    /// The deadline of the current view timer.
+    pub fn view_deadline(&self) -> zksync_concurrency::time::Deadline {
+        self.sm.view_timeout
+    }
+
+    pub fn snapshot(&self) -> Snapshot {
+        Snapshot {
+            view: self.sm.view_number,
+            phase: self.sm.phase,
+            high_vote: self.sm.high_vote.clone(),
+            high_commit_qc: self.sm.high_commit_qc.clone(),
+            high_timeout_qc: self.sm.high_timeout_qc.clone(),
+            commit_views: self.sm.commit_views_cache.len(),
+            timeout_views: self.sm.timeout_views_cache.len(),
+            commit_qc_views: self.sm.commit_qcs_cache.len(),
+            timeout_qc_views: self.sm.timeout_qcs_cache.len(),
+            commit_qcs_total: self.sm.commit_qcs_cache.values().map(|m| m.len()).sum(),
+            timeout_msgs_total: self
+                .sm
+                .timeout_qcs_cache
+                .values()
+                .map(|qc| qc.map.len())
+                .sum(),
+            cached_payloads: self
+                .sm
+                .block_proposal_cache
+                .values()
+                .map(|m| m.len())
+                .sum(),
+        }
+    }
+}
